@@ -91,6 +91,23 @@ func c12(c *Ctx) {
 				[][]*Guard{{GP(fmt.Sprintf("(%d == select#0)", doneIdx), true)}}, 1,
 				short+" returns ctx.Err() only in the select case that received from ctx.Done() (Context contract: Err is then non-nil)", "ctx.Err() before the context is done is nil: success without the lock")
 		}
+		{
+			// a failed (or pending) blocking attempt changes nothing: the only guard operation used is the Try* itself
+			var other []string
+			n := 0
+			for _, in := range Instrs(c.F(b.fn), p.CallsRe(`litefs\.\(\*RWMutexGuard\)\..*`)) {
+				n++
+				if nm := p.CalleeName(callCommon(in)); nm != b.try {
+					other = append(other, nm+" at "+c.where(in))
+				}
+			}
+			d := short + " touches the guard only through " + b.try + " (no Unlock, no other operation on any path)"
+			if len(other) > 0 || n < 2 {
+				c.fail("blocking/"+short+"/failure-changes-nothing", "K5 who-may-call", d, "a failed attempt changes nothing: releasing on the context path drops a shared lock the caller still holds", strings.Join(other, "; "), n)
+			} else {
+				c.ok("blocking/"+short+"/failure-changes-nothing", "K5 who-may-call", d, n)
+			}
+		}
 		var tried []string
 		for _, in := range Instrs(c.F(b.fn), p.PlainCalls("litefs.(*RWMutexGuard).TryLock", "litefs.(*RWMutexGuard).TryRLock")) {
 			tried = append(tried, p.CalleeName(callCommon(in)))
@@ -112,6 +129,25 @@ func c12(c *Ctx) {
 		}
 		c.Expect("blocking/"+short+"/select", strings.Join(sel, " ; "), pat("context.Context.Done(p1) ; time.NewTicker(@@).C"), "the wait selects on ctx.Done() and a ticker", "")
 	}
+	// ---- per-owner wrappers (DB level): a query or attempt by an owner always goes through that owner's guard ----
+	for _, w := range []struct{ fn, op string }{
+		{"litefs.(*DB).CanLock", "litefs.(*RWMutexGuard).CanLock"}, {"litefs.(*DB).CanRLock", "litefs.(*RWMutexGuard).CanRLock"},
+		{"litefs.(*DB).TryLocks", "litefs.(*RWMutexGuard).TryLock"}, {"litefs.(*DB).TryRLocks", "litefs.(*RWMutexGuard).TryRLock"},
+	} {
+		short := w.fn[strings.LastIndex(w.fn, ".")+1:]
+		gcall := p.PlainCalls("litefs.(*GuardSet).Guard")
+		c.ExpectAll("owners/"+short+"/own-guard-set", c.CallArgs(w.fn, gcall, 0), pat("litefs.(*DB).CreateGuardSetIfNotExists(p0, p2)"), 1, "DB."+short+" works on the requesting owner's guard set, created when the owner has none yet", "an owner that holds nothing is not 'nobody holds anything': a query from a fresh owner must still see the other owners' locks")
+		c.ExpectAll("owners/"+short+"/each-lock", c.CallArgs(w.fn, gcall, 1), pat("p3[(phi(-1) + 1)]"), 1, "... for every requested lock type, in order", "")
+		c.ExpectAll("owners/"+short+"/op", c.CallArgs(w.fn, p.PlainCalls(w.op), 0), pat("litefs.(*GuardSet).Guard(litefs.(*DB).CreateGuardSetIfNotExists(p0, p2), p3[(phi(-1) + 1)])"), 1, "... through "+w.op[strings.LastIndex(w.op, ".")+1:]+" of that guard", "")
+		c.GuardedPaths("owners/"+short+"/true-only-after-all", w.fn, func(in ssa.Instruction) bool {
+			r, ok := in.(*ssa.Return)
+			return ok && len(r.Results) > 0 && p.Render(returnedValue(r, 0)) == "true" && !(r.Block().Index != 0 && len(r.Block().Preds) == 0)
+		}, [][]*Guard{{G(`\(\(phi\(-1\) \+ 1\) < builtin\.len\(p3\)\)|\(.* < builtin\.len\(p3\)\)`, false)}}, 1, "... and answers true only after the loop over all requested locks completed", "")
+	}
+	c.OnlyInScope("owners/nilable-lookup", []string{"litefs", "fuse", "http"}, p.Calls("litefs.(*DB).GuardSet"), []string{pat("litefs.(*DB).UnlockDatabase"), pat("litefs.(*DB).UnlockSHM"), pat("litefs.(*DB).Unlock")}, 3, "the nil-able lookup DB.GuardSet(owner) is used only by the three unlock entry points (unlocking for an owner without a guard set is a no-op)", "")
+	c.Expect("owners/create-returns-existing", joinS(c.returnsOf("litefs.(*DB).CreateGuardSetIfNotExists")), pat("@@"), "CreateGuardSetIfNotExists resolves", "")
+	c.Before("owners/create-under-mutex", "litefs.(*DB).CreateGuardSetIfNotExists", p.Writes("litefs.DB.guardSets.m[]", "litefs.DB.guardSets[]"), p.PlainCalls("sync.(*Mutex).Lock"), 0, "the owner table is updated under its mutex", "")
+
 	c.Expect("blocking/contextErr", joinS(c.returnsOf("litefs.contextErr")), pat("context.Cause(p0);context.Context.Err(p0)"), "contextErr returns context.Cause(ctx) when non-nil, else ctx.Err()", "context.Cause of a context that does not track causes (the primary context) is nil even after it is done")
 	c.GuardedPaths("blocking/contextErr/cause-nonnil", "litefs.contextErr", func(in ssa.Instruction) bool {
 		r, ok := in.(*ssa.Return)
